@@ -428,7 +428,7 @@ func vh10Race(t *testing.T, o *vhOut, id int) {
 	}
 	// thread 0 = A (tag 1 in the model), thread 1 = B (tag 2)
 	o.Emit(map[string]interface{}{"kind": "trace", "sub": "reply-during-failed-send", "id": id, "n": 2, "outcomes": out,
-		"trace": []string{"AStart 1 2 1", "ASendOk 1", "AWaitToken 1", "AStart 0 1 0", "AFrame 1 1 true", "ASendFail 0", "ABody 1 true",
+		"trace": []string{"AStart 1 2 1", "ASendOk 1", "AWaitToken 1", "AStart 0 1 0", "AFrame 1 1 true", "ASendFail 0", "ABody 1 true", "AWaitToken 1",
 			"AFrame 1 2 true", "ABody 1 true", "AWaitDone 1"}})
 }
 
